@@ -320,7 +320,7 @@ func init() {
 	register(&CheckDef{
 		ID:    "C17",
 		Title: "Stat and space accounting are exact, and data files respect the size limit",
-		Reach: []string{"done", "oversized-file", "batch-committed", "restarted", "merged", "many-files"},
+		Reach: []string{"done", "oversized-file", "batch-committed", "restarted", "merged", "many-files", "merge-refused-by-ratio", "merge-allowed-by-ratio"},
 		Jobs: func(tier string) []JobSpec {
 			var js []JobSpec
 			add := func(name string, params map[string]int64) {
@@ -336,6 +336,9 @@ func init() {
 				add("twelve-files-k2", merge(base, p("fill", 12, "k", 2, "ops", opPut|opDelete|opMerge|opRestart, "vlens", 1, "dfs_lo", 20, "dfs_hi", 20)))
 				add("cfgsweep-k2", merge(base, p("cfgsweep", 2, "k", 2, "ops", opPut|opDelete|opRestart, "vlens", 1, "dfs_lo", 40, "dfs_hi", 40)))
 				add("batch-put-delete-cycles-then-filler", merge(base, p("k", 1, "ops", opBatch, "bcycles", 3, "bmax", 1, "vlens", 4, "vbig", 25, "vbig2", -60, "dfs_lo", 100, "dfs_hi", 200)))
+				// merge-ratio policy with the 256 MiB floor scaled to 20 bytes and DataFileMergeRatio 0.5
+				js = append(js, JobSpec{Name: "merge-ratio-policy-k3", Harness: "root", Func: "verifHarnessC17", Params: merge(base, p("k", 3, "ops", opPut|opDelete|opMerge, "vlens", 1, "ratio_pct", 50, "ratio_floor", 20, "dfs_lo", 60, "dfs_hi", 60)),
+					Scale: map[string]string{"datafile/log_record.go:blockSize": "32", "fio/mmap.go:blockSize": "128", "value:268435456": "20"}})
 			} else {
 				add("plain-k4", merge(base, p("k", 4, "ops", opPut|opDelete|opRestart, "vlens", 3, "vbig", 25, "dfs_lo", 40, "dfs_hi", 160)))
 				add("batch-k3", merge(base, p("k", 3, "ops", opPut|opDelete|opBatch|opRestart, "bmax", 2, "dfs_lo", 60, "dfs_hi", 160)))
